@@ -267,11 +267,55 @@ def run(ctx, res):
             res.ob(good, "fci-kind", sup, f"{nm} supports exactly {kind} feedback (RFC 4585/5104)", detail=repr(r)[:200])
         for s, k, r in I.inline(fm, None, State(), [b]):
             res.ob(isinstance(r, IntV) and r.l == lin(fmt), "fci-kind", fm, f"{nm}::format() == {fmt}", detail=repr(r))
+    n_def = default_configuration(F, D, builders, res)
+    res.floor("public constructors whose fresh builder was checked against the limits", n_def, 14)
     n_pad = padding_attribute(F, D, builders, res)
     res.floor("get_padding outcomes checked", n_pad, 16)
     res.floor("rejecting size outcomes checked", n_err, 40)
     res.floor("accepting size outcomes checked", n_ok, 18)
     res.analysed = per
+
+
+def default_configuration(F, D, builders, res):
+    """what a public constructor hands back — before any setter is called — is itself a configuration, and "every other
+    configuration is accepted": no rule of the limits table may be violated by the fresh builder *whatever the
+    constructor's arguments are* (a default padding of 1 would make every builder of that type unusable until the caller
+    sets a padding it never asked for).  Rules whose truth depends on the arguments are not touched here."""
+    from .. import roles
+    from ..interp import Unmodelled
+    n = 0
+    for d, b in F.bodies.items():
+        if b.get("kind") not in ("Fn", "AssocFn") or b.get("ret") is None or b.get("vis") != "Public":
+            continue
+        rt = F.types[b["ret"]]
+        if rt.get("k") != "adt":
+            continue
+        name = rt["def"].split("::")[-1]
+        if name not in RULES or name not in builders or name == "PacketBuilder":
+            continue
+        if any(F.types[F.strip_ref(p["t"])].get("def") == rt["def"] for p in b["params"]):
+            continue        # a method of the builder, not a constructor
+        I = Interp(F)
+        try:
+            args = [I.symbolic(p["t"], ("arg", i)) for i, p in enumerate(b["params"])]
+            outs = I.inline(d, None, State(), args)
+        except Unmodelled as ex:
+            res.unmodelled(d, f"constructor: {ex}")
+            continue
+        for s, k, v in outs:
+            if k != "val" or not isinstance(v, StructV) or v.adt != rt["def"]:
+                continue
+            n += 1
+            roles.alias(F, v)
+            A = Acc(v)
+            for r in RULES[name]:
+                try:
+                    bad = solver.entails(s.pc, f_not(r.holds(A)))
+                except (KeyError, AttributeError):
+                    continue        # the rule is about a quantity this constructor's result does not expose under that role
+                res.ob(not bad, "default-configuration", d, f"{name}: the freshly constructed builder does not violate '{r.name}' whatever the arguments",
+                       detail=repr(v)[:200], pc=s.pc)
+    return n
 
 
 def padding_attribute(F, D, builders, res):
